@@ -183,7 +183,7 @@ def scalars_realised():
     # root-level scalars carry the adversarial values too (negative durations, non-UTC offsets); inside
     # composites the "safe" lists are used so that a known leaf-level finding cannot mask a composite one
     return [DecimalS(), FractionS(), UUIDS_(), PathS(), PurePathS(), DateS(), DateTimeS(), TimeS(safe=False),
-            TimeDeltaS(safe=False), PatternS(), PermS(), ModeS(), SlugS()]
+            TimeDeltaS(safe=False), PatternS(safe=False), PermS(), ModeS(), SlugS()]
 
 
 def containers1():
